@@ -173,6 +173,9 @@ impl C01 {
                 ctx(),
             );
         }
+        if r.stdout.len() < 8192 {
+            obs.count("exports_smaller_than_8_KiB");
+        }
         if !lib.overrides.walls.is_empty() != !lib.overrides.windows.is_empty() {
             obs.count("models_with_one_sided_overrides");
         }
@@ -278,13 +281,37 @@ impl C01 {
     }
 
     /// synthetic project directory written by the harness's printers, optionally with a copied system section
-    fn synthetic_dir(&self, rng: &mut Rng, tag: &str) -> Option<PathBuf> {
-        let b = gen_building(rng, &BuildCfg::full());
+    fn synthetic_dir(&self, rng: &mut Rng, tag: &str, minimal: bool) -> Option<PathBuf> {
+        // every fourth project is as small as a project gets (one storey, one space, no schedules, shades or systems): its
+        // export is a few kB, below the sizes at which buffered writers flush by themselves
+        let mut b = if minimal { gen_building(rng, &BuildCfg { turned_spaces: false, own_polygon_walls: false, shades: false, schedules: false, odd_space_height: false, legacy_absent: false, max_floors: 1, max_spaces_per_floor: 1 }) } else { gen_building(rng, &BuildCfg::full()) };
+        if minimal {
+            // no windows, one construction for everything
+            let l0 = b.layers[0].name.clone();
+            for f in b.floors.iter_mut() {
+                for sp in f.spaces.iter_mut() {
+                    // two facades and the floor slab
+                    let floor = sp.walls.iter().position(|w| w.name.ends_with("_FTER"));
+                    let mut keep: Vec<_> = sp.walls.iter().take(2).cloned().collect();
+                    if let Some(i) = floor {
+                        if i >= 2 {
+                            keep.push(sp.walls[i].clone());
+                        }
+                    }
+                    sp.walls = keep;
+                    for w in sp.walls.iter_mut() {
+                        w.windows.clear();
+                        w.layers = l0.clone();
+                        w.absorptance = 0.6;
+                    }
+                }
+            }
+        }
         let lay = Layout::random(rng);
         let bdl = print_blocks(rng, &b.blocks(), &lay);
         // system sections: none, copied from a real project (VyP and GT sections), or generated with every kind the format knows
         let mut general_extra = String::new();
-        let systems = match rng.usize(4) {
+        let systems = match if minimal { 0 } else { rng.usize(4) } {
             0 => String::new(),
             1 => {
                 let files = crate::corpus::ctehexml_files();
@@ -385,6 +412,7 @@ impl Property for C01 {
             ("negative_runs".into(), 8),
             ("library_calls_with_stdout_watched".into(), 30),
             ("models_with_one_sided_overrides".into(), tier.pick(1, 3)),
+            ("exports_smaller_than_8_KiB".into(), 2),
             ("distinct:syskind:".into(), 75),
             ("distinct:edge-value:".into(), 25),
             ("in_process_export_load_compare".into(), 200),
@@ -406,7 +434,7 @@ impl Property for C01 {
                 self.export_case(d, &d.file_name().unwrap().to_string_lossy(), case.index % 2 == 0, Some(if case.index % 3 == 0 { "debug" } else { "info" }), false, obs);
             }
             "synthetic" => {
-                if let Some(d) = self.synthetic_dir(&mut rng, &format!("syn{}", case.index)) {
+                if let Some(d) = self.synthetic_dir(&mut rng, &format!("syn{}", case.index), case.index % 4 == 3) {
                     let origin = format!("synthetic#{}", case.index);
                     self.export_case(&d, &origin, false, None, false, obs);
                     self.export_case(&d, &origin, true, if case.index % 3 == 0 { Some("info") } else { None }, false, obs);
